@@ -11,7 +11,11 @@ if [ "$APPLY" = "--apply" ]; then
   while read st f; do
     case "$f" in
       DESIGN.md|known_findings.json|harness/manifest.py|harness/main.py|harness/common.py|kf_additions.json|design_notes.md|repo_patches*|lean/TflModel.lean|lean/Driver.lean) echo "SKIP(shared) $f";;
-      *) if [ -d "$f" ]; then mkdir -p /verif/$f; cp -r $f/. /verif/$f/; else mkdir -p /verif/$(dirname $f); cp "$f" /verif/$f; fi; echo "COPIED $f";;
+      *) if [ -d "$f" ]; then mkdir -p /verif/$f; cp -r $f/. /verif/$f/; echo "COPIED dir $f";
+         elif [ "$st" = "M" ] && ! cmp -s /tmp/w5/base/$f /verif/$f; then
+           # /verif's copy already moved away from the base (another package touched it): three-way merge
+           cp /verif/$f /tmp/w5/merge_mine.tmp; git merge-file /tmp/w5/merge_mine.tmp /tmp/w5/base/$f "$f" && { cp /tmp/w5/merge_mine.tmp /verif/$f; echo "MERGED $f"; } || echo "CONFLICT $f (left untouched; merged attempt in /tmp/w5/merge_mine.tmp)";
+         else mkdir -p /verif/$(dirname $f); cp "$f" /verif/$f; echo "COPIED $f"; fi;;
     esac
   done < /tmp/w5/$N.changes
 fi
